@@ -277,7 +277,7 @@ func trange(r *mon.Rand, halfOpen bool) (start, limit []byte) {
 }
 
 func famTreap(c *mon.Ctx) {
-	c.Family("treap", nCases(c, 1500, 200000), func(k *mon.Case) {
+	c.Family("treap", nCases(c, 1500, 100000), func(k *mon.Case) {
 		r := k.Rand
 		serial := 0
 		reposAfterMut := r.Chance(1, 4)
